@@ -17,6 +17,10 @@ NA = {
  "C19": "serde round trip of a value: no I/O fault or schedule changes whether two values share an encoding",
 }
 CHECKS = {
+ "C06": dict(level="fault_enumeration", design="§5.2",
+   text="Crash- and hang-freedom under injected faults: generated worlds take content faults (torn, lost, replayed and interleaved writes, bit flips, byte substitutions, CRLF/CR, NUL, BOM, invalid UTF-8, a size multiplier), include-graph shapes (self-include, cycles, missing file, directory / dangling symlink / symlink loop in place of a file), reader faults (five error kinds x import index, enumerated from the run index, three reader personalities) in process, and system-call faults (failing n-th open/read/realpath, short reads, EINTR, TOCTOU redirect of the pretty printer's re-open; enumerated from the run index) through the real rva in nine output modes and both build profiles. Oracle: no panic (overflow checks and debug assertions on), no signal/abort/non-zero exit, import budget, tick bounds on the parse loop and on the sweeps of both analyses, CPU and address-space rlimits on every child, JSON mode prints JSON.",
+   note="The pure-input part of the property (all byte strings, grammar-level mutations) is only sampled through content faults; no grammar coverage is claimed. Output-stream faults (EPIPE) are not alarms. The CPU limit is far above a normal run (10 s; 120 s for multiplied inputs), so it fires on non-termination or blow-up only.",
+   technique="deterministic simulation: content, reader and system-call fault injection with crash/hang oracle"),
  "C15": dict(level="fault_enumeration", design="§5.6",
    text="Refinement against the reference model 'textual inclusion, then the same analyzer': generated programs are cut at line boundaries into include trees (depth, sub-directories, several includes, missing file, self-include, two-cycle, file included twice) and linted through the in-memory FileReader under three reader personalities and a reader fault plan (five error kinds x import index), and through the real CLI reader under file-system faults (failing n-th open, short reads, EINTR); the diagnostics must equal those of the pasted single file mapped back through the line map, every failed include must yield exactly one error on its directive, everything else must still be analysed, and the run must end within the import budget. Fault enumeration over kind x instant for the reader faults, exploration for the program/cut space.",
    note="Trusted: the cutter's line map (paste(cut(p)) = p by construction), the harness's model of which include fails (validated against the reader's import log on every run; a mismatch is counted, never reported). Worlds whose included file ends in an unterminated statement are excluded from the equality clause (line accounting, C07).",
